@@ -151,8 +151,70 @@ class GeneratorFamily(Family):
         return res
 
 
+class GeneratorSequenceFamily(Family):
+    """Two generator runs in one process (edge list i, then edge list j of the same length): the second run must not
+    depend on the first (a verdict remembered under the position of a gate in the list would be stale)."""
+    name = 'sequence-generator/two-runs'
+    rule = ('every ordered pair of distinct 4-edge lists from a fixed family, generator run on the first and then on the second list in the same process (subgroup size 2): every emitted step of '
+            'both runs accepted by the predicate, each gate once; non-trivial = both runs emit at least one sequence or reject at least one partition')
+    LISTS = [
+        [('D1', 'Z1'), ('D9', 'X4'), ('D3', 'X2'), ('D7', 'Z3')],
+        [('D1', 'Z1'), ('D2', 'X1'), ('D9', 'X4'), ('D8', 'Z4')],
+        [('D5', 'Z1'), ('D1', 'Z1'), ('D1', 'X1'), ('D2', 'X1')],
+        [('D4', 'Z3'), ('D7', 'X3'), ('D6', 'Z2'), ('D3', 'X2')],
+    ]
+
+    def shards(self, tier):
+        return [None]
+
+    def cases(self, tier, shard):
+        for i in range(len(self.LISTS)):
+            for j in range(len(self.LISTS)):
+                if i != j:
+                    yield (i, j)
+
+    def run(self, case):
+        """Runs in a fresh interpreter, so that the verdict does not depend on what this worker executed before."""
+        import json, os, subprocess, sys
+        res = Res()
+        out = subprocess.run([sys.executable, '-W', 'ignore', '-c',
+                              'import json, sys; from mc.props.c16 import two_runs; print(json.dumps(two_runs(json.loads(sys.argv[1]))))', json.dumps(list(case))],
+                             env=dict(os.environ), capture_output=True, text=True, timeout=600)
+        if out.returncode != 0:
+            res.fail('C16-subprocess', out.stderr[-400:])
+            return res
+        fails, counts = json.loads(out.stdout.strip().splitlines()[-1])
+        for code, detail in fails:
+            res.fail(code, detail)
+        res.outcome = (case, tuple(counts))
+        res.transitions = sum(counts)
+        res.trivial = False
+        return res
+
+
+def two_runs(case):
+    from mc import world  # noqa: F401
+    L = Surface17Layer()
+    fails, out = [], []
+    for which in case:
+        edges = GeneratorSequenceFamily.LISTS[which]
+        gen = GateSequenceGenerator(included_edge_ids=[edge_obj(e) for e in edges], connectivity=L)
+        ident = gen.construct_allowed_gate_sequences(subgroup_size=2)
+        n = 0
+        for seq in ident.construct_operation_sequences():
+            n += 1
+            steps = [tuple(sorted(tuple(sorted(q.id for q in op.identifier.qubit_ids)) for op in step)) for step in seq.gate_operations]
+            if sorted(e for st in steps for e in st) != sorted(tuple(sorted(e)) for e in edges):
+                fails.append(('C16-generator-gates', 'lists %r, list %d: sequence %r does not use each requested gate exactly once' % (case, which, steps)))
+            for st in steps:
+                if not freq.accepted(list(st)):
+                    fails.append(('C16-generator-step', 'lists %r (run in this order), list %d: emitted step %r is not accepted by the predicate' % (case, which, st)))
+        out.append(n)
+    return fails, out
+
+
 def families(tier):
-    return [SubsetFamily(3 if tier == 'quick' else 4), GeneratorFamily(tier)]
+    return [SubsetFamily(3 if tier == 'quick' else 4), GeneratorFamily(tier), GeneratorSequenceFamily()]
 
 
 def signature(f):
